@@ -12,4 +12,4 @@ cd "$OUT/src"
 mv driver.ml driver.ml.last
 ORDER=$(ocamlfind ocamldep -sort *.mli *.ml)
 mv driver.ml.last driver.ml
-ocamlfind ocamlopt -O2 -w -a -o "$OUT/model" $ORDER driver.ml 2>/dev/null || ocamlfind ocamlopt -w -a -o "$OUT/model" $ORDER driver.ml
+ocamlfind ocamlopt -package unix -linkpkg -O2 -w -a -o "$OUT/model" $ORDER driver.ml 2>/dev/null || ocamlfind ocamlopt -package unix -linkpkg -w -a -o "$OUT/model" $ORDER driver.ml
